@@ -63,3 +63,118 @@ pub proof fn lemma_intersperse_free(s: Seq<DocV>, unit: int)
         assert(nest_ok(s.last(), unit) && t_safe(s.last()));
     } else if s.len() == 1 { assert(nest_ok(s[0], unit) && t_safe(s[0])); }
 }
+
+// ===== W for the list engine (C01 / C06): the words of items and free comments, in order =====
+/// a document whose words do not depend on the layout
+pub open spec fn wst(d: DocV) -> bool { alt_ok(d) && words(d, true) == words(d, false) }
+pub open spec fn wd(d: DocV) -> Seq<Seq<char>> { words(d, false) }
+pub open spec fn item_words(it: ItemV) -> Seq<Seq<char>> {
+    match it {
+        ItemV::Comment(c) => wd(c),
+        ItemV::Commented { body, after } => wd(body) + (match after { Option::Some(a) => wd(a), Option::None => Seq::empty() }),
+        ItemV::Linebreak(_) => Seq::empty(),
+    }
+}
+pub open spec fn item_wst(it: ItemV) -> bool {
+    match it {
+        ItemV::Comment(c) => wst(c),
+        ItemV::Commented { body, after } => wst(body) && (after matches Some(a) ==> wst(a)),
+        ItemV::Linebreak(_) => true,
+    }
+}
+#[verifier::opaque]
+pub open spec fn items_w(s: Seq<ItemV>) -> Seq<Seq<char>> decreases s.len() {
+    if s.len() == 0 { Seq::empty() } else { items_w(s.drop_last()) + item_words(s.last()) }
+}
+#[verifier::opaque]
+pub open spec fn items_wst(s: Seq<ItemV>) -> bool { forall|i: int| 0 <= i < s.len() ==> item_wst(#[trigger] s[i]) }
+#[verifier::opaque]
+pub open spec fn docs_w(s: Seq<DocV>) -> Seq<Seq<char>> decreases s.len() {
+    if s.len() == 0 { Seq::empty() } else { docs_w(s.drop_last()) + wd(s.last()) }
+}
+#[verifier::opaque]
+pub open spec fn docs_wst(s: Seq<DocV>) -> bool { forall|i: int| 0 <= i < s.len() ==> wst(#[trigger] s[i]) }
+
+pub proof fn lemma_lw_empty()
+    ensures items_w(Seq::<ItemV>::empty()) =~= Seq::<Seq<char>>::empty(), items_wst(Seq::<ItemV>::empty()),
+        docs_w(Seq::<DocV>::empty()) =~= Seq::<Seq<char>>::empty(), docs_wst(Seq::<DocV>::empty()),
+{ reveal_with_fuel(items_w, 1); reveal(items_wst); reveal_with_fuel(docs_w, 1); reveal(docs_wst); }
+pub proof fn lemma_items_w_push(s: Seq<ItemV>, it: ItemV)
+    ensures items_w(s.push(it)) == items_w(s) + item_words(it), items_wst(s.push(it)) == (items_wst(s) && item_wst(it)),
+{
+    reveal_with_fuel(items_w, 2); reveal(items_wst);
+    let t = s.push(it);
+    assert(t.drop_last() =~= s);
+    if items_wst(t) { assert forall|i: int| 0 <= i < s.len() implies item_wst(#[trigger] s[i]) by { assert(t[i] == s[i]); } assert(t[s.len() as int] == it); }
+    if items_wst(s) && item_wst(it) { assert forall|i: int| 0 <= i < t.len() implies item_wst(#[trigger] t[i]) by { if i < s.len() { assert(t[i] == s[i]); } } }
+}
+pub proof fn lemma_docs_w_push(s: Seq<DocV>, d: DocV)
+    ensures docs_w(s.push(d)) == docs_w(s) + wd(d), docs_wst(s.push(d)) == (docs_wst(s) && wst(d)),
+{
+    reveal_with_fuel(docs_w, 2); reveal(docs_wst);
+    let t = s.push(d);
+    assert(t.drop_last() =~= s);
+    if docs_wst(t) { assert forall|i: int| 0 <= i < s.len() implies wst(#[trigger] s[i]) by { assert(t[i] == s[i]); } assert(t[s.len() as int] == d); }
+    if docs_wst(s) && wst(d) { assert forall|i: int| 0 <= i < t.len() implies wst(#[trigger] t[i]) by { if i < s.len() { assert(t[i] == s[i]); } } }
+}
+/// dropping a trailing line-break item changes nothing
+pub proof fn lemma_items_w_drop_linebreak(s: Seq<ItemV>)
+    requires s.len() > 0, s.last() is Linebreak,
+    ensures items_w(s.drop_last()) =~= items_w(s), items_wst(s) ==> items_wst(s.drop_last()),
+{
+    reveal_with_fuel(items_w, 2); reveal(items_wst);
+    if items_wst(s) { assert forall|i: int| 0 <= i < s.drop_last().len() implies item_wst(#[trigger] s.drop_last()[i]) by { assert(s.drop_last()[i] == s[i]); } }
+}
+/// the last item gets more attached comments
+pub proof fn lemma_items_w_attach(s: Seq<ItemV>, t: Seq<ItemV>, added: DocV)
+    requires
+        s.len() > 0, t.len() == s.len(), t.drop_last() =~= s.drop_last(), wst(added),
+        s.last() matches ItemV::Commented { body: b0, after: a0 } && t.last() matches ItemV::Commented { body: b1, after: a1 } && b1 == b0
+            && a1 == Some(match a0 { Option::Some(a) => cat(a, added), Option::None => added }),
+    ensures items_w(t) =~= items_w(s) + wd(added), items_wst(s) ==> items_wst(t),
+{
+    reveal_with_fuel(items_w, 2); reveal(items_wst); reveal_with_fuel(words, 2); reveal_with_fuel(alt_ok, 2);
+    if items_wst(s) {
+        assert(item_wst(s[s.len() - 1]));
+        assert forall|i: int| 0 <= i < t.len() implies item_wst(#[trigger] t[i]) by { if i < t.len() - 1 { assert(t[i] == t.drop_last()[i]); assert(s[i] == s.drop_last()[i]); } }
+    }
+}
+/// free comments become comment items, in order
+pub proof fn lemma_items_w_detach(s: Seq<ItemV>, free: Seq<DocV>, t: Seq<ItemV>)
+    requires t.len() == s.len() + free.len(), forall|k: int| 0 <= k < s.len() ==> t[k] == s[k], forall|k: int| 0 <= k < free.len() ==> #[trigger] t[s.len() + k] == ItemV::Comment(free[k]),
+    ensures items_w(t) =~= items_w(s) + docs_w(free), items_wst(s) && docs_wst(free) ==> items_wst(t),
+    decreases free.len(),
+{
+    reveal_with_fuel(items_w, 2); reveal_with_fuel(docs_w, 2); reveal(items_wst); reveal(docs_wst);
+    if free.len() == 0 { assert(t =~= s); }
+    else {
+        let t1 = t.drop_last();
+        let f1 = free.drop_last();
+        assert forall|k: int| 0 <= k < f1.len() implies #[trigger] t1[s.len() + k] == ItemV::Comment(f1[k]) by { assert(t1[s.len() + k] == t[s.len() + k]); assert(f1[k] == free[k]); }
+        lemma_items_w_detach(s, f1, t1);
+        assert(t.last() == t[s.len() + (free.len() - 1)]);
+        assert(t.last() == ItemV::Comment(free.last()));
+        if items_wst(s) && docs_wst(free) {
+            assert forall|i: int| 0 <= i < f1.len() implies wst(#[trigger] f1[i]) by { assert(f1[i] == free[i]); }
+            assert forall|i: int| 0 <= i < t.len() implies item_wst(#[trigger] t[i]) by { if i < t1.len() { assert(t[i] == t1[i]); } else { assert(wst(free[free.len() - 1])); } }
+        }
+    }
+}
+/// interspersing layout-stable documents with a wordless separator: the words in order
+pub proof fn lemma_intersperse_words(s: Seq<DocV>, sep: DocV)
+    requires docs_wst(s), wst(sep), wd(sep).len() == 0,
+    ensures wst(intersperse_doc(s, sep)), wd(intersperse_doc(s, sep)) =~= docs_w(s),
+    decreases s.len(),
+{
+    reveal_with_fuel(docs_w, 2); reveal(docs_wst); reveal_with_fuel(words, 4); reveal_with_fuel(alt_ok, 4); reveal_with_fuel(intersperse_doc, 2);
+    if s.len() > 1 {
+        let p = s.drop_last();
+        assert forall|i: int| 0 <= i < p.len() implies wst(#[trigger] p[i]) by { assert(p[i] == s[i]); }
+        lemma_intersperse_words(p, sep);
+        assert(wst(s[s.len() - 1]));
+    } else if s.len() == 1 {
+        assert(wst(s[0]));
+        assert(s.drop_last() =~= Seq::<DocV>::empty());
+        reveal_with_fuel(docs_w, 3);
+    }
+}
